@@ -32,3 +32,6 @@ func SetSelect(at int) { runtime.VfxSetSelect(uint32(at)) }
 
 // SelectCount returns the number of such selects since SetSelect.
 func SelectCount() int { return int(runtime.VfxSelectCount()) }
+
+// Goid returns the id of the calling goroutine.
+func Goid() uint64 { return runtime.VfxGoid() }
